@@ -8,7 +8,9 @@
 //	cfg      trustProxy,loopback,private,linkLocal,validate  (five 0/1)
 //	proxies  hexlist (TrustProxyConfig.Proxies as configured)
 //	phdr     hex ProxyHeader
-//	peer     "t:<hex ip bytes>" (TCP peer, 4 or 16 bytes) or "u" (non-TCP address)
+//	peer     "t:<hex ip bytes>" (TCP peer, 4 or 16 bytes) or "u" (non-TCP address), optionally followed by
+//	         "/<hex>" per EARLIER request of the history: the same app first serves request A from each of
+//	         these peers (4 or 16 bytes, oldest first), then A and B from the peer in front
 //	tls      0/1
 //	host     hex Host header
 //	off      Subdomains offset
@@ -49,6 +51,7 @@ type cfgIn struct {
 
 type connIn struct {
 	tcp  bool
+	pre  [][]byte // peers of earlier requests served by the same app (history), oldest first
 	ip   []byte
 	tls  bool
 	host string
@@ -201,6 +204,17 @@ func proxyInfo(proxies []string) string {
 
 func emit(w *gen.Writer, id string, c cfgIn, cn connIn, rawA, rawB []string) bool {
 	run := newApp(c, cn.off)
+	// the history: earlier requests on the same app from other peers. Every request is judged on its
+	// own (the trust decision is a function of configuration and peer), so nothing they leave behind
+	// in the app may reach A and B.
+	for _, p := range cn.pre {
+		earlier := cn
+		earlier.tcp, earlier.ip, earlier.pre = true, p, nil
+		if _, _, _, ok := observe(run, earlier, rawA); !ok {
+			w.Count("unparsable-request")
+			return false
+		}
+	}
 	viewA, uhA, obsA, okA := observe(run, cn, rawA)
 	viewB, uhB, obsB, okB := observe(run, cn, rawB)
 	if !okA || !okB {
@@ -210,6 +224,9 @@ func emit(w *gen.Writer, id string, c cfgIn, cn connIn, rawA, rawB []string) boo
 	peer := "u"
 	if cn.tcp {
 		peer = "t:" + gen.Hex(string(cn.ip))
+	}
+	for _, p := range cn.pre {
+		peer += "/" + gen.Hex(string(p))
 	}
 	nphdr := string(fasthttp.AppendNormalizedHeaderKey(nil, c.phdr))
 	w.Case(id,
@@ -239,6 +256,14 @@ func main() {
 		id := fmt.Sprintf("s%d.%d", o.Seed, i)
 		c, cn, a, b := genCase(w, r)
 		emit(w, id, c, cn, a, b)
+		// the same history in the other order: the last earlier peer becomes the judged one
+		if n := len(cn.pre); n > 0 && cn.tcp {
+			m := cn
+			m.ip = cn.pre[n-1]
+			m.pre = append(append([][]byte{}, cn.pre[:n-1]...), cn.ip)
+			w.Count("history-mirrored")
+			emit(w, id+".m", c, m, a, b)
+		}
 	}
 }
 
@@ -254,6 +279,18 @@ func replayOne(w *gen.Writer, f []string) {
 	c := cfgIn{trust: fl[0] == "1", loopback: fl[1] == "1", private: fl[2] == "1", linkLocal: fl[3] == "1", validate: fl[4] == "1",
 		proxies: gen.UnHexList(f[2]), phdr: gen.UnHex(f[3])}
 	var cn connIn
+	peerParts := strings.Split(f[4], "/")
+	if len(peerParts) > 4 {
+		return
+	}
+	for _, h := range peerParts[1:] {
+		p := []byte(gen.UnHex(h))
+		if len(p) != 4 && len(p) != 16 {
+			return
+		}
+		cn.pre = append(cn.pre, p)
+	}
+	f[4] = peerParts[0]
 	switch {
 	case f[4] == "u":
 	case strings.HasPrefix(f[4], "t:"):
